@@ -77,17 +77,20 @@ func init() {
 }
 
 func corpus() []core.Case {
-	return []core.Case{
+	return append(floatCorpus(), []core.Case{
 		// iterator handles: obtained before Clear / Set / Map, ranged after; twice; after an early break; nested
 		{Lines: []string{"@ C12 kv 0", "set 1 10", "set 2 20", "seq 0", "clear", "rangeseq 0 9", "set 3 30", "rangeseq 0 9", "rangeseq 0 9", "seq 1", "mapset 4 40", "rangeseq 1 1", "rangeseq 1 9", "nestseq 0", "del 3 4", "nestseq 1", "rangeseq 0 9", "clear", "set 5 50"}},
 		{Lines: []string{"@ C12 kv 2", "seq 0", "rangeseq 0 3", "set 1 1", "set 2 2", "set 3 3", "rangeseq 0 2", "rangeseq 0 0", "keys", "values", "set 1 9", "del 2", "keys", "values", "clear", "keys", "mapset 7 7", "values", "nestseq 0"}},
 		{Lines: []string{"@ C12 kv 0", "setnx 1 10", "setnx 1 11", "get 1", "setx 2 20", "has 2", "len", "setx 1 12", "get 1"}},
 		{Lines: []string{"@ C12 kv 4", "set 1 10", "set 2 20", "set 3 30", "keys", "values", "range 9", "all 9", "range 2", "all 1", "len", "clear", "len", "keys", "range 3"}},
 		{Lines: []string{"@ C12 kv 2", "set 1 10", "set 2 20", "getwithmap 1:0 5:55 2:7", "getwithlock 1", "getwithlock 9", "del 1 9 2", "len", "mapset 4 40", "maplen", "mapdel 4", "contains 4", "del"}},
-	}
+	}...)
 }
 
 func gen(r *core.Rand, tier string) core.Case {
+	if r.Chance(12) {
+		return genFloat(r) // key types with a partial `==` (float64, struct with a float field)
+	}
 	lines := []string{fmt.Sprintf("@ C12 kv %d", r.Range(0, 8))}
 	n := r.Range(1, 30)
 	next := 1
@@ -354,6 +357,9 @@ func (st *seqState) ledgerOK() (string, bool) {
 }
 
 func impl(c core.Case) []string {
+	if isFloatCase(c) {
+		return runFloat(c, false)
+	}
 	var s *mapz.SafeKV[int, int]
 	st := &seqState{slots: map[int]iter.Seq2[int, int]{}}
 	stuck := false
@@ -570,6 +576,9 @@ func seqStep(s *mapz.SafeKV[int, int], st *seqState, t []string) string {
 // check: the property's sequential content against a plain Go map (independent of
 // the Lean model): every method is the corresponding plain-map function.
 func check(c core.Case, out []string) *core.Failure {
+	if isFloatCase(c) {
+		return checkFloat(c, out)
+	}
 	ref := map[int]int{}
 	seqSlots := map[int]bool{}
 	for i := 1; i < len(out) && i < len(c.Lines); i++ {
@@ -696,6 +705,16 @@ func check(c core.Case, out []string) *core.Failure {
 
 func classify(c core.Case, out []string) []string {
 	var ls []string
+	if isFloatCase(c) {
+		ls = append(ls, "keytype="+core.Toks(c.Lines[0])[3])
+		for _, l := range c.Lines[1:] {
+			t := core.Toks(l)
+			if len(t) >= 2 && strings.HasPrefix(t[1], "nan") {
+				ls = append(ls, t[0]+"-nan-key")
+			}
+		}
+		return ls
+	}
 	for i, l := range c.Lines[1:] {
 		op := core.Toks(l)[0]
 		o := out[i+1]
